@@ -2,7 +2,9 @@
 
 Abstraction (DESIGN.md Part II, C03): on data containing every combination of levels, the column space of a scoped term T with factor
 set F_T, of which the factors R_T are emitted in reduced form, is the direct sum of the "pure interaction" subspaces W_A over the ATOMS
-        cover(T) = { A : R_T <= A <= F_T }          (a full factor contributes its own main effect or nothing, a reduced one must be present)
+        cover(T) = { A : R_T u (F_T \\ SPANNING) <= A <= F_T }
+(a factor that spans the intercept and is emitted at full rank contributes its own main effect or nothing; a reduced factor, and a factor
+that does not span the intercept - a plain numeric column - is always present)
 so a set of scoped terms is structurally full rank iff the covers of its members are pairwise disjoint, and two sets span the same space
 iff the unions of their covers agree.  (That linear-algebra fact is argued in DESIGN.md and validated numerically by the bounded
 driver; it is NOT mechanised.)  What IS proved here, for every input set, is the combinatorial half that the code implements:
@@ -132,6 +134,8 @@ def n_sorted(eng, args, kw, n, st):
 
 
 ATOMSET = TSet(SETEF)                      # a set of atoms
+SPAN = z3.Const("spanning_factors", SETEF.sort())      # the evaluated factors whose encoding spans the intercept (categoricals, bs(..., include_intercept=True))
+WF = z3.Function("reduced_only_if_spanning", TSeq(STERM).sort(), z3.BoolSort())
 COVER = z3.Function("cover", STERM.sort(), ATOMSET.sort())                 # { A : R(t) <= A <= F(t) }
 UNION = z3.Function("atoms", TSeq(STERM).sort(), ATOMSET.sort())           # union of the covers of the members of a sequence
 
@@ -145,7 +149,8 @@ def atoms_axioms():
     U = z3.SetUnion
     return [
         # definitional: the cover of a scoped term
-        z3.ForAll([t, A], z3.IsMember(A, COVER(t)) == z3.And(z3.IsSubset(R_(t), A), z3.IsSubset(A, F_(t))), patterns=[z3.IsMember(A, COVER(t))]),
+        z3.ForAll([t, A], z3.IsMember(A, COVER(t)) == z3.And(z3.IsSubset(z3.SetUnion(R_(t), z3.SetDifference(F_(t), SPAN)), A), z3.IsSubset(A, F_(t))),
+                  patterns=[z3.IsMember(A, COVER(t))]),
         # definitional: atoms(S) is the union of the covers of the members of S (stated over the sequence constructors and over membership)
         UNION(th.Empty) == z3.EmptySet(SETEF.sort()),
         z3.ForAll([a, t], UNION(th.Build(a, t)) == U(UNION(a), COVER(t)), patterns=[UNION(th.Build(a, t))]),
@@ -157,6 +162,57 @@ def atoms_axioms():
         z3.ForAll([a, b], z3.Implies(z3.ForAll([x], th.Has(a, x) == th.Has(b, x), patterns=[th.Has(a, x), th.Has(b, x)]), UNION(a) == UNION(b)),
                   patterns=[z3.MultiPattern(UNION(a), UNION(b))]),
     ]
+
+
+DISJ = z3.Function("disjoint_covers", TSeq(STERM).sort(), z3.BoolSort())     # no atom is covered by two different members
+
+
+def disj_axioms():
+    th = SQ.theory(STERM.sort())
+    a = z3.Const("dj!a", th.S)
+    x, y = z3.Consts("dj!x dj!y", STERM.sort())
+    E0 = z3.EmptySet(SETEF.sort())
+    # definitional (membership-based, so it does not depend on the order of the sequence)
+    return [z3.ForAll([a], DISJ(a) == z3.ForAll([x, y], z3.Implies(z3.And(th.Has(a, x), th.Has(a, y), x != y), z3.SetIntersect(COVER(x), COVER(y)) == E0),
+                                               patterns=[z3.MultiPattern(th.Has(a, x), th.Has(a, y))]), patterns=[DISJ(a)])]
+
+
+def wf_axioms():
+    th = SQ.theory(STERM.sort())
+    a = z3.Const("wf!a", th.S)
+    x = z3.Const("wf!x", STERM.sort())
+    return [z3.ForAll([a], WF(a) == z3.ForAll([x], z3.Implies(th.Has(a, x), z3.IsSubset(R_(x), SPAN)), patterns=[th.Has(a, x)]), patterns=[WF(a)])]
+
+
+def sp_wf(eng, args, kw, n, st):
+    eng.uses_axioms(wf_axioms)
+    return V(TBool, WF(args[0].t))
+
+
+def prefix_lemma():
+    """in a sequence with pairwise disjoint covers and no repeated member, a member covers nothing that the members before it cover"""
+    th = SQ.theory(STERM.sort())
+    a = z3.Const("pl!a", th.S)
+    k, j, i1, i2 = z3.Ints("pl!k pl!j pl!i1 pl!i2")
+    nodup = z3.ForAll([i1, i2], z3.Implies(z3.And(0 <= i1, i1 < i2, i2 < th.Len(a)), th.At(a, i1) != th.At(a, i2)), patterns=[z3.MultiPattern(th.At(a, i1), th.At(a, i2))])
+    prem = [DISJ(a), nodup, 0 <= k, k <= j, j < th.Len(a)]
+    goal = z3.SetIntersect(COVER(th.At(a, j)), UNION(th.Take(a, k))) == z3.EmptySet(SETEF.sort())
+    ax, sq = atoms_axioms(), th.axioms()
+    return dict(name="disjoint-prefix", text="disjoint(S), S duplicate-free, k <= j < len(S)  ==>  cover(S[j]) & atoms(S[:k]) == {}", premises=prem, goal=goal,
+                uses=[ax[5], ax[6]] + disj_axioms() + sq,
+                closed=z3.ForAll([a, k, j], z3.Implies(z3.And(*prem), goal), patterns=[z3.MultiPattern(DISJ(a), UNION(th.Take(a, k)), COVER(th.At(a, j)))]))
+
+
+def member_lemma():
+    """a member's cover lies inside the atoms of the sequence (instance of the definition, with a trigger on the cover)"""
+    th = SQ.theory(STERM.sort())
+    a = z3.Const("ml!a", th.S)
+    x = z3.Const("ml!x", STERM.sort())
+    prem = [th.Has(a, x)]
+    goal = z3.IsSubset(COVER(x), UNION(a))
+    ax = atoms_axioms()
+    return dict(name="member-cover", text="x in S ==> cover(x) <= atoms(S)", premises=prem, goal=goal, uses=[ax[5]],
+                closed=z3.ForAll([a, x], z3.Implies(z3.And(*prem), goal), patterns=[z3.MultiPattern(th.Has(a, x), COVER(x), UNION(a))]))
 
 
 def removal_lemma():
@@ -172,7 +228,12 @@ def removal_lemma():
 
 
 def lemma_axioms():
-    return [removal_lemma()["closed"]]
+    return [removal_lemma()["closed"], prefix_lemma()["closed"], member_lemma()["closed"]] + disj_axioms() + wf_axioms()
+
+
+def sp_disjoint(eng, args, kw, n, st):
+    eng.uses_axioms(disj_axioms)
+    return V(TBool, DISJ(args[0].t))
 
 
 def sp_cover(eng, args, kw, n, st):
@@ -194,7 +255,7 @@ def sp_R(eng, args, kw, n, st):
     return V(SETEF, R_(args[0].t))
 
 
-ENV = {"cover": sp_cover, "atoms": sp_atoms, "F": sp_F, "R": sp_R}
+ENV = {"cover": sp_cover, "atoms": sp_atoms, "F": sp_F, "R": sp_R, "disjoint": sp_disjoint, "wf": sp_wf, "SPANNING": V(SETEF, SPAN)}
 B = "formulaic/materializers/base.py::FormulaMaterializer."
 SAME_ATOMS = "atoms({0}) == atoms({1})"
 
@@ -210,14 +271,19 @@ def build():
         B + "_simplify_scoped_terms", params={"cls": {"__class__": "FormulaMaterializer"}, "scoped_terms": TSeq(STERM, nodup=True)}, returns=TSeq(STERM, nodup=True),
         globals=G, spec_env=ENV, axioms=[sterm_axioms, atoms_axioms, lemma_axioms, lambda: stdlib.seq_axioms(STERM), lambda: stdlib.card_axioms(SFAC)],
         local_types={"terms": TSeq(STERM, nodup=True)},
+        # representation invariant of the inputs: only a factor that spans the intercept is ever asked for in reduced form
+        requires=["wf(scoped_terms)"],
         loops={
-            0: {"index": "_k", "inv": [SAME_ATOMS.format("terms", "_seq[:_k]")]},
+            0: {"index": "_k", "inv": [SAME_ATOMS.format("terms", "_seq[:_k]"), "implies(disjoint(scoped_terms), disjoint(terms))", "wf(terms)"]},
             1: {"inv": ["terms == _seq", "not combined"]},
         },
-        ensures=[SAME_ATOMS.format("result", "scoped_terms")],
+        ensures=[SAME_ATOMS.format("result", "scoped_terms"),
+                 # ... and emitted terms never overlap if the given ones do not (structural full rank)
+                 "implies(disjoint(scoped_terms), disjoint(result))",
+                 "wf(result)"],
         modifies=[], props=["C03"])
     c.name_loop_items = True
-    c.derived_lemmas = [removal_lemma]
+    c.derived_lemmas = [removal_lemma, prefix_lemma, member_lemma]
     E, N, e = "existing_term", "scoped_term", "factor_new.factor"
     c.hints = {
         # what the two cardinality tests establish about the scoped-factor SETS of the new term N and the existing term E
@@ -253,12 +319,12 @@ def _concrete_env():
 
     def cover(t):
         F = [sf.factor for sf in t.factors]
-        R = [sf.factor for sf in t.factors if sf.reduced]
-        free = [f for f in F if f not in R]
+        must = [sf.factor for sf in t.factors if sf.reduced or not sf.factor.metadata.spans_intercept]
+        free = [f for f in F if not any(f is g for g in must)]
         out = set()
         for k in range(len(free) + 1):
             for extra in itertools.combinations(free, k):
-                out.add(frozenset(id(x.factor) if hasattr(x, "factor") else id(x) for x in list(R) + list(extra)))
+                out.add(frozenset(id(x) for x in list(must) + list(extra)))
         return out
 
     def atoms(S):
@@ -267,7 +333,14 @@ def _concrete_env():
             out |= cover(t)
         return out
 
-    return {"cover": cover, "atoms": atoms}
+    def disjoint(S):
+        S = list(S)
+        return all(not (cover(a) & cover(b)) for i, a in enumerate(S) for b in S[i + 1:])
+
+    def wf(S):
+        return all(sf.factor.metadata.spans_intercept for t in S for sf in t.factors if sf.reduced)
+
+    return {"cover": cover, "atoms": atoms, "disjoint": disjoint, "wf": wf}
 
 
 def workloads():
